@@ -80,6 +80,10 @@ Fixpoint key_pos (St : gmap positive bytes) (flag : bool) (name : bytes) (cs : l
       end
   end.
 
+(** the member found: position and subtree *)
+Definition found_member (St : gmap positive bytes) (flag : bool) (name : bytes) (cs : list tree) : option (nat * tree) :=
+  key_pos St flag name cs ≫= fun k => (fun c => (k, c)) <$> cs !! k.
+
 (** * 3. keys and the member sort on trees *)
 Definition fkey (St : gmap positive bytes) (c : tree) : bytes := default [] (key_string St c).
 Definition has_key (St : gmap positive bytes) (c : tree) : Prop := is_Some (key_string St c).
